@@ -69,6 +69,10 @@ claimed = {
    text="Multi-incarnation histories of the real program over one world directory in which only the bbolt database survives: daemon starts ended by injected SIGTERM, the real `fan reset` and `fan init` commands, each its own OS process in virtual time; the journal of PWM writes before the first control cycle decides whether the sweep / the RPM-curve measurement was repeated, for hwmon/file/cmd fans with and without configured pwmMap and min+max; re-analysis after reset guards against vacuous passes. One known finding (README promise about configured min+max) is listed in known_findings.json.",
    note="Trusted: classification of start-up writes by call stack (sweep vs measurement), thresholds 8 / 3 writes; process restarts model only loss of non-durable state (no torn database).",
    tech="deterministic simulation across process restarts (durable state only), start-up write-journal oracle"),
+ "C17": dict(cat="exploration", ref="§3/C17",
+   text="Generated fake hwmon trees and selectors go through the real discovery and matching code (over a pure-Go libsensors stand-in) inside the real daemon, three times with different seeded enumeration orders of the chips; the files each entry's own goroutines read and write are compared with a reference binding computed from tree + selector, must not include any other device, and must agree across orders; entries naming a non-existing device must end start-up with an error naming the entry, without a runtime-error panic and without any write.",
+   note="Trusted base: the stand-in's feature ordering (type, then channel) matches libsensors - it defines what 'index' means. A ui.Fatal exit (message, then pterm's panic) before any device was written counts as a clean failure when the message names the entry.",
+   tech="deterministic simulation of the daemon over generated device trees with permuted enumeration order; observed-I/O vs reference-binding oracle"),
 }
 checks = []
 for p in props:
